@@ -148,7 +148,13 @@ func c19RenderCase(r *fw.Rand, depth, wrap, padEntry, padCallee int, sameFile bo
 			w, ns = &b, "nb"
 		}
 		_ = ns
-		wr(w, "/** @param? u\n * @param? z */")
+		if lv == 0 && r.P(1, 3) {
+			// bytes that are not UTF-8 (a Latin-1 letter) in the comment above the template: lines are counted in the
+			// file as it is
+			wr(w, "/** @param? u caf\xe9 \xe0 la carte\n * @param? z \xff */")
+		} else {
+			wr(w, "/** @param? u\n * @param? z */")
+		}
 		wr(w, fmt.Sprintf("{template .t%d}", lv))
 		wr(w, "{isNonnull($z)}")
 		wr(w, "line one{isNonnull($u)}")
